@@ -6,6 +6,7 @@ java -version 2>&1 | head -1
 test -f /opt/veriftools/tla/tla2tools.jar
 /venv/bin/python -c "import job_shop_lib, pathlib; p=pathlib.Path(job_shop_lib.__file__).resolve(); assert str(p).startswith('/repo/'), p; print('job_shop_lib from', p)"
 mkdir -p .work evidence
+(tlapm --version 2>&1 | head -1; apalache-mc version 2>&1 | tail -1) || true
 cd spec
 fail=0
 for f in *.tla; do
